@@ -40,6 +40,11 @@ def accessors(ver, twin):
            ("clean_vector", lambda o: o.clean_vector()), ("rh_vector", lambda o: o.rh_vector()),
            ("as_json", _json(False, False)), ("as_json_sort", _json(True, False)),
            ("as_json_minimal", _json(False, True)), ("as_json_sort_minimal", _json(True, True)),
+           # option values that are not bools but mean the same by truth value (None, 0, 1, 2: what argparse results,
+           # configuration files and `flag and other` expressions hand over)
+           ("as_json_truthy_options", lambda o: [(type(d).__name__ if s_ else "dict", sorted(d.items()), list(d) if s_ else None)
+                                                 for s_, m_ in ((None, 0), (1, None), (2, 1), (0, 2))
+                                                 for d in [o.as_json(sort=s_, minimal=m_)]]),
            ("hash", lambda o: hash(o)), ("eq_self", lambda o: o == o), ("eq_twin", lambda o: (o == twin, twin == o)),
            ("eq_foreign", lambda o: [(o == x, x == o, o != x, x != o) for x in FOREIGN])]
     if ver != "2":
@@ -109,6 +114,28 @@ def check_vector(P, ver, s, rng, n_seq, near_miss=False):
             P.violation("total", "C18:v%s:%s-raises:%s" % (ver, n, obs.exc_name(r)), dict(case0, sequence=[n]), error=repr(r))
             return
         base[n] = r
+    if "as_json_truthy_options" in base:
+        P.ev("truthy-options")
+        want = []
+        for s_, m_ in ((False, False), (True, False), (True, True), (False, True)):
+            ok, d = obs.call(L.CLS[ver](s).as_json, sort=s_, minimal=m_)
+            want.append((type(d).__name__ if s_ else "dict", sorted(d.items()), list(d) if s_ else None) if ok else None)
+        if base["as_json_truthy_options"] != want:
+            P.violation("total", "C18:v%s:as_json-options-given-as-truthy-or-falsy-values-differ-from-bools" % ver, dict(case0, sequence=["as_json_truthy_options"]))
+    # objects obtained in other ways (copies, pickles, from_rh_vector, the extractor): every accessor returns without raising
+    if P.evaluations % 3 == 0:
+        how = obs.BUILT[(P.evaluations // 3) % len(obs.BUILT)]
+        ok, o2 = obs.call(obs.build, L, ver, s, how)
+        if ok and o2 is not None:
+            P.stratum("object-obtained-by:" + how)
+            for n, f in acc:
+                ok, r = obs.call(f, o2)
+                if not ok:
+                    P.violation("total", "C18:v%s:%s-raises:%s:object-obtained-by-%s" % (ver, n, obs.exc_name(r), how), dict(case0, sequence=[n], built=how), error=repr(r))
+                    break
+                if not same(r, base[n]) and n not in ("eq_twin",):
+                    P.violation("pair-stable", "C18:v%s:%s-differs-for-the-object-obtained-by-%s" % (ver, n, how), dict(case0, sequence=[n], built=how))
+                    break
     # every ordered pair
     P.distinct_n += len(names) ** 2
     for a in (names if not near_miss else names[:1]):
